@@ -579,6 +579,20 @@ pub fn c04(out: &mut dyn Write, tier: &str, rng: &mut Rng, st: &mut Stats) {
         // the short lists exhaustively
         for tt in 0..256u64 { for vs in lists.iter().take(8) { emit(tt, vs, "exists", st); emit(tt, vs, "all", st); } }
     }
+    // functions containing two different sub-diagrams with the same 64-bit hash, quantified over each of their variables
+    for f in collision_functions(rng, if thorough { 3000 } else { 200 }) {
+        let sup = { let mut v: Vec<usize> = Vec::new(); fn go(b: &BDD<usize>, v: &mut Vec<usize>) { if let BDD::Choice(t, s, f) = b { if !v.contains(s) { v.push(*s); } go(t, v); go(f, v); } } go(&f, &mut v); v };
+        let mut lists: Vec<Vec<usize>> = sup.iter().map(|v| vec![*v]).collect();
+        lists.push(vec![7]);
+        if sup.len() >= 2 { lists.push(vec![sup[0], sup[sup.len() - 1]]); }
+        for vs in lists {
+            for q in ["exists", "all"] {
+                let r = if q == "exists" { env.exists(vs.clone(), Rc::clone(&f)) } else { env.all(vs.clone(), Rc::clone(&f)) };
+                writeln!(out, "C04|{}|{}|{}|{}", q, show_nats(&vs), show(&f), show(&r)).unwrap();
+                st.hit("q.collision");
+            }
+        }
+    }
     // exists_impl directly, and larger functions
     let n = if thorough { 20000 } else { 1500 };
     for _ in 0..n {
@@ -659,8 +673,32 @@ pub fn c05(out: &mut dyn Write, tier: &str, rng: &mut Rng, st: &mut Stats) {
     }
 }
 
-fn unary_functions(tier: &str, rng: &mut Rng) -> Vec<B> {
+/// functions whose diagrams contain two different sub-diagrams with the same 64-bit hash (util::colliding):
+/// `x0 ? A : B`, `x0 ? A : !B`, `(x0 | A) & B`, `A ^ B` — a traversal that memoises by hash confuses A and B
+pub fn collision_functions(rng: &mut Rng, count: usize) -> Vec<B> {
     let mut fs: Vec<B> = Vec::new();
+    if !hash_model_ok() { return fs; }
+    let env: BDDEnv<usize> = BDDEnv::new();
+    let x0 = env.var(0);
+    let mut tries = 0;
+    while fs.len() < count && tries < 4 * count + 16 {
+        tries += 1;
+        let a = from_tt(1 + rng.below(254), &[1, 4, 9]);
+        if a.is_const() { continue; }
+        let (_, b) = match colliding(&a, rng.below(3), 2 + rng.below(6) as usize) { Some(p) => p, None => continue };
+        let f = match rng.below(4) {
+            0 => env.ite(Rc::clone(&x0), Rc::clone(&a), Rc::clone(&b)),
+            1 => env.ite(Rc::clone(&x0), Rc::clone(&a), env.not(Rc::clone(&b))),
+            2 => env.and(env.or(Rc::clone(&x0), Rc::clone(&a)), Rc::clone(&b)),
+            _ => env.xor(Rc::clone(&a), Rc::clone(&b)),
+        };
+        fs.push(f);
+    }
+    fs
+}
+
+fn unary_functions(tier: &str, rng: &mut Rng) -> Vec<B> {
+    let mut fs: Vec<B> = collision_functions(rng, if tier == "thorough" { 2000 } else { 150 });
     for vars in [vec![0usize, 1, 2], vec![1, 4, 9], vec![3, 5, 6]] {
         for tt in 0..256u64 { fs.push(from_tt(tt, &vars)); }
     }
